@@ -12,8 +12,15 @@ Product: for the regular-expression based types the *live* pattern object is
    automaton (equivalence for strings of every length).
 Random Unicode strings are converted for totality (only ValueError, or
 TypeError for timedelta's unknown unit).
+Registry: spec/ZRegistry.tla (stock table, name normalisation, register /
+   search); TLC explores every sequence of MaxOps get / register operations
+   over stock names in two letter cases, application names, dotted names that
+   do / do not resolve and a name that is no basic key, checks that the stock
+   table is never shadowed, that a name keeps its first conversion and that
+   get is idempotent, and every history is replayed on a fresh Registry.
 """
 import datetime
+import os
 import itertools
 import random
 import socket
@@ -222,6 +229,75 @@ def _spec_accepts(kind, s):
     return re.fullmatch(shapes[kind], s, re.ASCII if kind != "config-token" else 0)
 
 
+# -- the registry (stock table / name normalisation) ------------------------------------------------
+REG_NAMES = ["integer", "Integer", "mytype", "MyType", "zcv.dts.wrap", "zcv.dts.nosuch", "no such", "byte-size"]
+_CONVS = {}
+
+
+def replay_registry(v):
+    import ZConfig.datatypes
+    from .. import dts
+    reg = ZConfig.datatypes.Registry()
+    convs = {"f1": _CONVS.setdefault("f1", lambda s: ("f1", s)), "f2": _CONVS.setdefault("f2", lambda s: ("f2", s))}
+    seen = {}
+    for k, h in enumerate(v["hist"], 1):
+        try:
+            if h["op"] == "get":
+                got = reg.get(h["n"])
+                res = "ok"
+            else:
+                reg.register(h["n"], convs[h["c"]])
+                got, res = None, "ok"
+        except ValueError:
+            got, res = None, "ValueError"
+        except Exception as e:
+            got, res = None, "import-failure" if isinstance(e, (ImportError, AttributeError)) else "raised " + type(e).__name__
+        why = None
+        if res != h["r"]:
+            why = "registry: outcome of %s" % h["op"]
+        elif res == "ok" and h["op"] == "get":
+            # which conversion: the stock one of that name, the registered callable, or the imported object
+            want = h["v"]
+            if want.startswith("stock:"):
+                ok = got is ZConfig.datatypes.stock_datatypes[want[6:]]
+            elif want.startswith("import:"):
+                ok = got is dts.wrap
+            else:
+                ok = got is convs[want]
+            if not ok:
+                why = "registry: conversion returned by get"
+        if why:
+            return {"clause": why, "input": {"operations": [[x["op"], x["n"], x["c"]] for x in v["hist"]], "failed_at": k},
+                    "spec": {"r": h["r"], "v": h["v"]}, "observed": {"r": res, "v": repr(got)[:80]},
+                    "class": {"clause": why}}
+    return None
+
+
+def registry_part(chk, quick):
+    import re
+    bk = re.compile(r"[a-zA-Z][-._a-zA-Z0-9]*\Z")
+    stock = ["basic-key", "boolean", "byte-size", "dotted-name", "dotted-suffix", "existing-dirpath", "existing-directory",
+             "existing-file", "existing-path", "float", "identifier", "inet-address", "inet-binding-address",
+             "inet-connection-address", "integer", "ipaddr-or-hostname", "locale", "null", "port-number",
+             "socket-address", "socket-binding-address", "socket-connection-address", "string", "string-list",
+             "time-interval", "timedelta"]
+    gen = ("MCStock == " + tlc.tla_value(set(stock)) + "\n"
+           "MCNames == " + tlc.tla_value(set(REG_NAMES)) + "\n"
+           "MCBasicKey(n) == CASE " + " [] ".join(
+               "n = %s -> %s" % (tlc.tla_str(n), tlc.tla_str(n.lower() if bk.match(n) else "~bad~"))
+               for n in REG_NAMES if "." not in n or True) + "\n"
+           "MCIsDotted(n) == n \\in " + tlc.tla_value({n for n in REG_NAMES if "." in n}) + "\n"
+           "MCResolves(n) == n = \"zcv.dts.wrap\"\n")
+    with open(os.path.join(tlc.SPEC_DIR, "mc", "MC_ZRegistry.tla")) as f:
+        mod = f.read().replace("@GENERATED@", gen)
+    cfg = flow.cfg_text(constants={"MaxOps": 3 if quick else 4, "Convs": '{"f1", "f2"}'},
+                        overrides={"Stock": "MCStock", "Names": "MCNames", "BasicKey": "MCBasicKey",
+                                   "IsDotted": "MCIsDotted", "Resolves": "MCResolves"},
+                        invariants=["StockNeverShadowed", "GetIdempotent", "UndottedNeverImported", "Emit"],
+                        properties=["FirstBindingWins"])
+    flow.run_g(chk, mod, cfg, replay_registry, sample_every=4001, workers=4, timeout=900, procs=8, batch=300)
+
+
 def run(chk):
     quick = chk.tier == "quick"
     chk.rule = ("per datatype: every string up to the per-type bound over the per-type alphabet (one representative per "
@@ -248,6 +324,7 @@ def run(chk):
     chk.exhaustive = True
     chk.note("bounds", bounds)
     product_checks(chk)
+    registry_part(chk, quick)
     # totality on random Unicode strings
     rng = random.Random(chk.seed * 7919 + 9)
     pool = list("aZ09 .:-_/[]$%\t") + ["é", "Ж", "٣", "　", "\x00", "\U0001F600", "ß", "١"]
